@@ -426,7 +426,7 @@ def c11(c):
 
 
 def c09(c):
-    cfgs = ["configure", "configure_b", "configure_c", "send_pages", "send_pages_model"] + (["cin_full"] if c.tier == "thorough" else ["cin_small"])
+    cfgs = ["configure", "configure_b", "configure_c", "send_pages", "send_pages_model"] + (["cin_full"] if c.tier == "thorough" else [])
     path = ctl_scripts(c, cfgs)
     files = record_from_scripts(c, path, "C09S", 16 if c.tier == "thorough" else 10)
     os.remove(path)
